@@ -108,6 +108,32 @@ def apply(ex, fv, args, kwargs, st, node):
             yield from call_contract(ex, fv.extra if fv.extra else fv.name, args, kwargs, st, node)
         elif k == "builtin_unbound":
             yield from builtin_unbound(ex, fv.name, args, kwargs, st, node)
+        elif k == "closure":
+            fdef, _env = fv.extra
+            names = [a.arg for a in fdef.args.args]
+            if len(names) != len(args) or kwargs or fdef.args.vararg or fdef.args.kwarg:
+                raise Unsupported("closure call shape")
+            outer = st.env
+            nonlocals = {n for s_ in ast.walk(fdef) if isinstance(s_, ast.Nonlocal) for n in s_.names}
+            st.env = dict(outer)
+            st.env.update(zip(names, args))
+            ex.sinks.append([])
+            outs = list(ex.run_block(fdef.body, st))
+            outs += ex.sinks.pop()
+            for o in outs:
+                inner_env = o.st.env
+                for n in nonlocals:
+                    if n in inner_env and n in outer and inner_env[n] is not outer[n]:
+                        raise Unsupported(f"closure assigns nonlocal {n}")
+                o.st.env = dict(outer)
+                if o.kind == "return":
+                    yield o.st, o.val
+                elif o.kind == "normal":
+                    yield o.st, NONEV
+                elif o.kind == "raise":
+                    ex.sink_raise(o.st, o.val, o.node)
+                else:
+                    raise Unsupported("break/continue escaping a closure")
         elif k == "lambda":
             lam, env = fv.extra
             names = [a.arg for a in lam.args.args]
@@ -121,6 +147,11 @@ def apply(ex, fv, args, kwargs, st, node):
                 yield st1, v
         else:
             raise Unsupported(f"call of {fv}")
+        return
+    if isinstance(fv, Val) and isinstance(fv.t, TOpaque) and fv.t.tag in OP_TAGS:
+        if len(args) != 2 or kwargs:
+            raise Unsupported("operator call arity")
+        yield from ex.compare1(OP_TAGS[fv.t.tag](), args[0], args[1], st, node) if False else _op_call(ex, fv.t.tag, args, st, node)
         return
     if isinstance(fv, Val) and fv.t == NUMTYPE:
         if len(args) != 1:
@@ -140,6 +171,15 @@ def apply(ex, fv, args, kwargs, st, node):
         yield from pyobj_call(ex, fv, args, kwargs, st, node)
         return
     raise Unsupported(f"call of {fv} (line {node.lineno})")
+
+
+OP_TAGS = {"OpLt": ast.Lt, "OpLe": ast.LtE, "OpGt": ast.Gt, "OpGe": ast.GtE, "OpEq": ast.Eq, "OpNe": ast.NotEq}
+
+
+def _op_call(ex, tag, args, st, node):
+    """call of a parameter that is one of operator.lt/le/gt/ge/eq/ne (contract type OpLt, ...)"""
+    for st1, c in ex.compare1(OP_TAGS[tag](), args[0], args[1], st, node):
+        yield st1, boolv(c)
 
 
 def pyobj_call(ex, fv, args, kwargs, st, node):
@@ -499,6 +539,12 @@ def builtin_call(ex, name, args, kwargs, st, node):
             yield from call_contract(ex, key, [x], {}, st, node)
             return
         raise Unsupported(f"hash of {getattr(x, 't', x)}")
+    if name in ("exp", "log") and len(args) == 1 and is_numeric(args[0]):
+        from .theory import zf
+
+        ops.USED.add("explog")
+        yield st, Val(NUM, zf("Exp" if name == "exp" else "Log")(to_real(args[0])))
+        return
     if name == "frozenset":
         x = args[0]
         if isinstance(x, ViewVal) and x.kind == "items":
@@ -583,9 +629,10 @@ def builtin_call(ex, name, args, kwargs, st, node):
                 if d is not None:
                     yield st, heapops.read_field(st.heap, base, attr)
                     return
-            if isinstance(base.t, TOpaque) and base.t.tag == "Other":
-                yield st, args[2]
-                return
+            if (isinstance(base.t, TOpaque) and base.t.tag == "Other") or isinstance(base.t, (TNum, TInt, TStr, TBool, TNone)):
+                if attr.startswith("_") and not attr.startswith("__"):
+                    yield st, args[2]  # plain values carry no private pint attributes
+                    return
         raise Unsupported("getattr")
     if name == "hasattr" and isinstance(args[1].t, TStr):
         s = z3.simplify(args[1].v)
